@@ -127,6 +127,19 @@ func genTask(rng *lib.Rng, idx int, kind string) taskSpec {
 		p := peer(0, mServe)
 		p.Adv = ts.End - 1 // the last height is above every advertised height
 		ts.Peers = append(ts.Peers, p)
+	case "slot-starvation":
+		// one slow serving peer behind the per-peer job limit (20 while >= 7 peers are listed: six more peers are given
+		// but advertise nothing in range): the heights of the last round exhaust the 50 x 400 ms retries of the first
+		// pass and are delivered by the re-download pass only
+		ts.End = ts.Start + 102
+		g := peer(0, mSlow)
+		g.DelayMs = 4500
+		ts.Peers = append(ts.Peers, g)
+		for i := 1; i <= 6; i++ {
+			p := peer(i, mServe)
+			p.Adv = ts.Start - 1
+			ts.Peers = append(ts.Peers, p)
+		}
 	case "big-range":
 		span(90, 150)
 		np := rng.Range(2, 4)
@@ -175,13 +188,16 @@ func kindOf(i int, quick bool) string {
 	if quick && i == 31 {
 		k = "unadvertised"
 	}
+	if (quick && i == 30) || (!quick && i%64 == 30) {
+		k = "slot-starvation"
+	}
 	return k
 }
 
 func run(c *lib.Ctx) {
 	c.Rule("task i = PRNG-generated (height range, 1-8 scripted fake peers: per-height reply mode serve/slow/refuse/close/empty/nil-message/wrong-kind/nil-block/garbage/truncated/over-long/bad-header/wrong-height/stall, " +
 		"advertised height, reply delay, recorded latency = selection order), kinds: one good peer behind failing ones, complementary availability, wrong-height peer asked first, partial availability by advertised height with slow peers, " +
-		"single peer failing some heights, stalling peer, nothing servable, 90-150 heights (per-peer job limit), unadvertised height, random. Every task is executed by the real handleEventDownloadBlock (EventFetchBlocks) of one node per child, plain and under -race. " +
+		"single peer failing some heights, stalling peer, nothing servable, 90-150 heights (per-peer job limit), unadvertised height, slot starvation (slow peer behind the job limit: last heights only delivered by the re-download pass), random. Every task is executed by the real handleEventDownloadBlock (EventFetchBlocks) of one node per child, plain and under -race. " +
 		"Offline checker over the log (requests each peer saw, peer selections with pass flag from the hook, EventSyncBlock at the fake blockchain): (1) every height with >= 1 peer that advertises and serves it is delivered with the served block by the time the task returns; " +
 		"(2) no (peer,height) pair is asked again after that peer failed that height in the task; (3) the task returns within 30 s + 2 x worst-case retry budget (10 s per stalled request and pass, 21 s per pass for an unadvertised height). " +
 		"non-trivial = >= 1 request failed and >= 1 height was delivered after a failed request for it (failover observed); fingerprint = task spec")
@@ -202,7 +218,11 @@ func run(c *lib.Ctx) {
 				continue
 			}
 			rng := c.CaseRng(stream, i)
-			cur = append(cur, genTask(rng, idx, kindOf(i, c.Quick())))
+			kind := kindOf(i, c.Quick())
+			if race && (kind == "slot-starvation" || kind == "unadvertised") {
+				kind = "random"
+			}
+			cur = append(cur, genTask(rng, idx, kind))
 			if len(cur) == per {
 				jobs = append(jobs, job{race, cur})
 				cur = nil
@@ -321,7 +341,7 @@ func weight(ts []taskSpec) int {
 	w := 0
 	for _, t := range ts {
 		switch t.Kind {
-		case "unadvertised":
+		case "unadvertised", "slot-starvation":
 			w += 50
 		case "stall":
 			w += 25
